@@ -359,7 +359,7 @@ pub fn spec() -> PropSpec {
     PropSpec {
         id: "C17",
         level: "exploration",
-        rule: "both session kinds; W: every value 1..=64 (enumerated, several generated streams each), then a pool {100, 127, 128, 129, 255, 4096, 65535, 65536, 1000000, 2^24 (thorough)}, random values, and large windows {2^31-1, 2^31, 2^31+1, 3*10^9, 2^32-2, 2^32-1, any u32} for which no acknowledgement may appear; a valid inbound stream from the reference peer encoder (pings, unknown commands, user-control, peer bandwidth, peer acknowledgements, unknown-type blobs sized relative to W) with the Window Acknowledgement Size message after a generated prefix and re-announcements later; call sizes from {0, 1, W-1, W, W+1, 2W, random}. ModelAck predicts per call whether an Acknowledgement appears and its value. Non-trivial = >= 2 acknowledgements and a call whose size is not a multiple of W; distinct = distinct case",
+        rule: "both session kinds; W: every value 1..=64 (enumerated, several generated streams each), then a pool {100, 127, 128, 129, 255, 4096, 65535, 65536, 1000000, 2^24 (thorough)}, random values, and large windows {2^31-1, 2^31, 2^31+1, 3*10^9, 2^32-2, 2^32-1, any u32} for which no acknowledgement may appear; the session fresh (with its OWN configured window varied: default, W, W/2, 2W, small) or prepared as connected / publishing / playing; a valid inbound stream from the reference peer encoder (pings, unknown commands, user-control, Set Peer Bandwidth with limit types 0..2 and values relative to W, peer acknowledgements, unknown-type blobs sized relative to W, and well-formed messages answered with Err, delivered in calls of their own - the history goes on unless that call owed an acknowledgement) with the Window Acknowledgement Size message after a generated prefix and re-announcements later; call sizes from {0, 1, W-1, W, W+1, 2W, random}. ModelAck predicts per call whether an Acknowledgement appears and its value. Non-trivial = >= 2 acknowledgements and a call whose size is not a multiple of W; distinct = distinct case",
         assumptions: vec![
             "ModelAck (from the statement): the window learned in a call governs the FOLLOWING calls; each call adds its length; reaching W => exactly one Acknowledgement carrying the count, count := 0; a re-announcement replaces W and does not reset the count",
             "W = 0 is outside the statement; W near 2^32 needs ~4 GiB per case and is sampled only up to 2^24",
